@@ -1,6 +1,7 @@
 """Registry of contract units.  A unit = one function of /repo under contract (+ helpers inlined,
 + callees replaced by their contracts) for a list of instantiations."""
 import fam_pgm
+import fam_md
 
 
 class Unit:
@@ -67,3 +68,24 @@ U('pgmindex_segment_for_key', fam_pgm, 'PGMIndex_segment_for_key', ['C01', 'C02'
 
 U('segment_call', fam_pgm, 'Segment_call', ['C01', 'C02', 'C17'], decls=['pgm_ghost'],
   insts=[kinst('uint64_t'), kinst('int64_t'), kinst('int32_t'), kinst('int16_t')], thorough_insts=ALL_K)
+
+
+# ---------------------------------------------------------------------------------------------------
+# MultidimensionalPGMIndex
+MD_Q = [fam_md.md_inst('uint64_t', 2), fam_md.md_inst('uint32_t', 3)]
+MD_ALL = [fam_md.md_inst(t, d) for t in ('uint64_t', 'uint32_t') for d in (2, 3, 4)]
+MD_NOTE = ('a point is identified with its Morton code: encode/Decode are assumed mutually inverse on the in-range domain (mortonnd, pdep/pext)')
+SEARCH_NOTE = ('the inner PGMIndex::search is replaced by the C01/C02 contract (proved in units pgmindex_*; its WF_levels/ACC preconditions are '
+               'established by build only through the bounded link)')
+
+U('md_contains', fam_md, 'MD_contains', ['C14', 'C17', 'C16'], assumed=['PGMIndexT_search', 'MD_encode', 'morton_Decode'],
+  decls=['md_ghost', 'std_bounds_T'], lemmas=['lemma_data_sorted', 'lemma_rank', 'pgmv_lower_bound_T'], insts=MD_Q, thorough_insts=MD_ALL,
+  spec=('md.spec',), frame_ghost_only=True, assumptions=[MD_NOTE, SEARCH_NOTE])
+
+U('md_box_zcontains', fam_md, 'MD_box_zcontains', ['C13', 'C17'], inline=['MD_box_zcontains_field'], decls=['md_ghost'], insts=MD_Q, thorough_insts=MD_ALL,
+  spec=('md.spec',))
+
+U('md_advance', fam_md, 'RangeIterator_advance', ['C13', 'C17', 'C16'], inline=['MD_box_zcontains_field', 'MD_box_zcontains'],
+  assumed=['PGMIndexT_search', 'morton_Decode', 'MD_bigmin'], decls=['md_ghost', 'std_bounds_T'],
+  lemmas=['lemma_data_sorted', 'lemma_rank', 'lemma_box_range', 'pgmv_upper_bound_T', 'pgmv_lower_bound_T'], insts=MD_Q, thorough_insts=MD_ALL,
+  spec=('md.spec',), assumptions=[MD_NOTE, SEARCH_NOTE], timeout=1200)
